@@ -340,11 +340,13 @@ class Quantity {
     }
 
     // Modulo operator (defined only for integral rep).
-    friend constexpr Quantity operator%(Quantity a, Quantity b) { return {a.value_ % b.value_}; }
+    friend constexpr Quantity operator%(Quantity a, Quantity b) {
+        return {static_cast<Rep>(a.value_ % b.value_)};
+    }
 
     // Unary plus and minus.
-    constexpr Quantity operator+() const { return {+value_}; }
-    constexpr Quantity operator-() const { return {-value_}; }
+    constexpr Quantity operator+() const { return {static_cast<Rep>(+value_)}; }
+    constexpr Quantity operator-() const { return {static_cast<Rep>(-value_)}; }
 
     // Automatic conversion to Rep for Unitless type.
     template <typename U = UnitT, typename = std::enable_if_t<IsUnitlessUnit<U>::value>>
